@@ -967,7 +967,12 @@ class StateRun(object):
 
     def op_unrelated(self):
         self.unrelated_left -= 1
-        d = self.proto.get_info('version')
+        if self.ch.chance(1, 3, 'unrelated-rejected'):
+            # a query Tor rejects, with one error line per unknown key: it fails and nothing else is touched
+            self.sim.probe('unrelated-command-rejected-multi-line')
+            d = self.proto.get_info('bogus/one', 'bogus/two', 'bogus/three'[:6 + 5 * self.ch.draw(2, 'nbogus')])
+        else:
+            d = self.proto.get_info('version')
         self.unrelated_pending += 1
 
         def done(_):
